@@ -554,7 +554,7 @@ func TestVerifC01(t *testing.T) {
 	}
 
 	// --- round 2 random configurations
-	nX := out.Scale(150, 3000)
+	nX := out.Scale(100, 3000)
 	for i := 0; i < nX; i++ {
 		c := plGenCfgX(rnd)
 		ps := plNewServer(t, c)
